@@ -1,6 +1,7 @@
 import datetime
 import decimal
 import functools
+import itertools
 import math
 import re
 
@@ -853,14 +854,17 @@ class ValueDecimal(Value):
 
 @functools.total_ordering
 class ValueFunc(Value):
+    serials = itertools.count(1)
+
     def __init__(self, name):
         self.name = name
         self.secure = True
+        self.serial = next(ValueFunc.serials)
 
     def __hash__(self):
         # (not the name: def renames a function value, and equality is
-        # identity)
-        return object.__hash__(self)
+        # identity; not the address either: it differs between processes)
+        return self.serial
 
     def __eq__(self, other):
         return self is other
